@@ -23,6 +23,7 @@ EXPLANATION = EXPLANATION + " Round 10: R5 also requires the converted error to 
 EXPLANATION = EXPLANATION + " Rounds 12-13: R9 also requires that a dispatch error does not end the wind-down's loop over the buffered messages (leaving on the peer's Close is fine)."
 EXPLANATION = EXPLANATION + ' Rounds 14-15: (S8) the WebSocket adapters hand every message of the underlying stream to the task (no loop, no filter) and keep Close / Ping / Pong / Binary what they are.'
 EXPLANATION = EXPLANATION + ' Rounds 16-17: (R12) the dequeue of accept_stream_channel / next_bind_request / get_datagram is not inside a loop (followed up through poll_fn closures).'
+EXPLANATION = EXPLANATION + ' Round 18: (R13) = C16.R1, only a Pong refreshes the last-pong timestamp (so the keepalive cause of the teardown can fire).'
 ASSUMPTIONS = ["poll_fn closures are polled by the await that follows their creation",
                "tokio mpsc close()/recv() semantics (clean shutdown) as documented"]
 NOT_DECIDED = "completion of operations racing with teardown; enumeration of cut points; timing"
